@@ -78,26 +78,6 @@ pub fn judge_contents_ctx(model: &Model, got: &BTreeMap<Key, Val>, lo: u64, hi: 
 			),
 		),
 	};
-	// explanation predicate "rotation_straddle": some boundary p in the window exists such
-	// that every key's recovered value is reachable by dropping only writes of commits whose
-	// log record sits in a different WAL segment than the memtable their data was applied to
-	if model.commits.iter().any(|c| c.straddled()) {
-		let mut keys: Vec<Key> = model.all_keys();
-		for k in got.keys() {
-			if !keys.contains(k) {
-				keys.push(k.clone());
-			}
-		}
-		for p in bounds.iter().filter(|b| **b >= lo && **b <= hi) {
-			let ok = keys.iter().all(|k| model.possible(k, *p, &|c| c.straddled()).contains(&got.get(k).cloned()));
-			if ok {
-				v.explained = Some("rotation_straddle".into());
-				let lost: Vec<u64> = model.commits.iter().filter(|c| c.straddled() && c.last_seq <= *p).map(|c| c.txn).collect();
-				v.detail = format!("{} [explained by known finding rotation_straddle: only writes of straddled transactions {:?} are missing]", v.detail, lost);
-				break;
-			}
-		}
-	}
 	// explanation predicate "post_wal_failure_not_undone": commits that returned an error
 	// after their WAL record had been appended are replayed by recovery
 	if v.explained.is_none() {
@@ -112,12 +92,34 @@ pub fn judge_contents_ctx(model: &Model, got: &BTreeMap<Key, Val>, lo: u64, hi: 
 			let ghost_seqs: Vec<u64> = model.commits.iter().filter(|c| ghost(c) && c.last_seq >= lo).map(|c| c.last_seq).collect();
 			for p in bounds.iter().filter(|b| **b >= lo && **b <= hi).copied().chain(ghost_seqs.into_iter()) {
 				let pp = p.max(lo);
-				let ok = keys.iter().all(|k| model.possible2(k, pp, &|c| c.straddled(), &ghost).contains(&got.get(k).cloned()));
+				let ok = keys.iter().all(|k| model.possible2(k, pp, &|_| false, &ghost).contains(&got.get(k).cloned()));
 				if ok {
 					v.explained = Some("post_wal_failure_not_undone".into());
 					v.detail = format!("{} [explained by known finding post_wal_failure_not_undone: the extra data belongs to commits that failed after their WAL append]", v.detail);
 					break;
 				}
+			}
+		}
+	}
+	// explanation predicate "rotation_straddle": some boundary p in the window exists such
+	// that every key's recovered value is reachable by dropping only writes of commits whose
+	// log record sits in a different WAL segment than the memtable their data was applied to
+	// (F1 is repaired: this predicate names no listed finding any more and suppresses nothing;
+	// it is evaluated after the open ones and only labels the report)
+	if v.explained.is_none() && model.commits.iter().any(|c| c.straddled()) {
+		let mut keys: Vec<Key> = model.all_keys();
+		for k in got.keys() {
+			if !keys.contains(k) {
+				keys.push(k.clone());
+			}
+		}
+		for p in bounds.iter().filter(|b| **b >= lo && **b <= hi) {
+			let ok = keys.iter().all(|k| model.possible(k, *p, &|c| c.straddled()).contains(&got.get(k).cloned()));
+			if ok {
+				v.explained = Some("rotation_straddle".into());
+				let lost: Vec<u64> = model.commits.iter().filter(|c| c.straddled() && c.last_seq <= *p).map(|c| c.txn).collect();
+				v.detail = format!("{} [explained by known finding rotation_straddle: only writes of straddled transactions {:?} are missing]", v.detail, lost);
+				break;
 			}
 		}
 	}
